@@ -69,7 +69,13 @@ type Plan struct {
 	DelayP      float64 `json:"delay_p"`
 	MetaKillP   float64 `json:"metadata_kill_p"`
 	LeaderMoves int     `json:"leader_moves"`
-	KeepFrames  bool    `json:"keep_frames,omitempty"`
+	// MetaErr: for a window of the run, Metadata responses report one partition
+	// of the purge-target topic with LEADER_NOT_AVAILABLE and produce requests
+	// carrying it are answered NOT_LEADER_FOR_PARTITION (nothing appended), so
+	// records for it sit buffered on a partition in a load-error state; a purge
+	// of the topic is scheduled inside the window.
+	MetaErr    bool `json:"metadata_partition_error,omitempty"`
+	KeepFrames bool `json:"keep_frames,omitempty"`
 }
 
 // Rec is the monitor's cell for one record handed to the client.
@@ -314,8 +320,38 @@ func Run(plan Plan, watchdog time.Duration) (res *Result) {
 	var fmu sync.Mutex
 	var faultsOn atomic.Bool
 	faultsOn.Store(true)
+	var metaErrOn atomic.Bool
+	var topicBID atomic.Value // [16]byte, learnt from metadata responses
+	metaErrPart := int32(plan.Seed % uint64(max(plan.Partitions, 1)))
 	fnet := &faultnet.Net{KeepFrames: plan.KeepFrames}
 	fnet.Decide = func(r *faultnet.Req) faultnet.Action {
+		if r.Key == 3 && plan.MetaErr {
+			on := metaErrOn.Load() && faultsOn.Load()
+			return faultnet.Action{Kind: faultnet.Rewrite, Rewrite: func(frame []byte) []byte {
+				return faultnet.RewriteBody(r, frame, func(kresp kmsg.Response) {
+					resp, ok := kresp.(*kmsg.MetadataResponse)
+					if !ok {
+						return
+					}
+					for i := range resp.Topics {
+						t := &resp.Topics[i]
+						if t.Topic == nil || *t.Topic != TopicB {
+							continue
+						}
+						topicBID.Store(t.TopicID)
+						if !on {
+							continue
+						}
+						for j := range t.Partitions {
+							if pt := &t.Partitions[j]; pt.Partition == metaErrPart {
+								pt.ErrorCode = kerr.LeaderNotAvailable.Code
+								pt.Leader = -1
+							}
+						}
+					}
+				})
+			}}
+		}
 		if !faultsOn.Load() {
 			return faultnet.Action{}
 		}
@@ -355,14 +391,27 @@ func Run(plan Plan, watchdog time.Duration) (res *Result) {
 	// error-code injection one level up (the broker does NOT append)
 	crng := rand.New(rand.NewPCG(plan.Seed, 99))
 	seenBatches := map[string]bool{} // only touched from kfake's single control goroutine
-	if plan.RetriableP > 0 || plan.FatalP > 0 {
+	if plan.RetriableP > 0 || plan.FatalP > 0 || plan.MetaErr {
 		env.C.ControlKey(0, func(kreq kmsg.Request) (kmsg.Response, error, bool) {
 			env.C.KeepControl()
 			if !faultsOn.Load() {
 				return nil, nil, false
 			}
-			x := crng.Float64()
 			req := kreq.(*kmsg.ProduceRequest)
+			if metaErrOn.Load() {
+				bid, _ := topicBID.Load().([16]byte)
+				for _, t := range req.Topics {
+					if t.Topic != TopicB && (t.TopicID == [16]byte{} || t.TopicID != bid) {
+						continue
+					}
+					for _, pt := range t.Partitions {
+						if pt.Partition == metaErrPart {
+							return produceErrResp(req, kerr.NotLeaderForPartition.Code), nil, true
+						}
+					}
+				}
+			}
+			x := crng.Float64()
 			// A fatal code is only injected for batches the broker has never been
 			// handed before: answering "rejected" for a batch that an earlier
 			// attempt already appended is something no broker does.
@@ -645,12 +694,20 @@ func Run(plan Plan, watchdog time.Duration) (res *Result) {
 		if plan.LateTopic {
 			acts = append(acts, act{20 + srng.IntN(40), "create-late"})
 		}
+		if plan.MetaErr {
+			on := 5 + srng.IntN(50)
+			acts = append(acts, act{on, "metaerr-on"}, act{on + 8 + srng.IntN(15), "purge-w"}, act{on + 25 + srng.IntN(15), "metaerr-off"})
+		}
 		if plan.CloseMid {
 			acts = append(acts, act{30 + srng.IntN(60), "close"})
 		}
 		// trigger by progress percentage of submitted records
 		doneActs := make([]bool, len(acts))
-		for sideCtx.Err() == nil {
+		// The error window must end even if it stalls the producers (blocked on a
+		// full buffer, progress stops): its purge and its end also fire a bounded
+		// number of loop turns after it began.
+		iter, onIter := 0, -1
+		for ; sideCtx.Err() == nil; iter++ {
 			pct := int(w.submitted.Load() * 100 / int64(total))
 			all := true
 			for i, a := range acts {
@@ -658,7 +715,8 @@ func Run(plan Plan, watchdog time.Duration) (res *Result) {
 					continue
 				}
 				all = false
-				if pct < a.at {
+				late := onIter >= 0 && (a.kind == "purge-w" && iter-onIter > 150 || a.kind == "metaerr-off" && iter-onIter > 400)
+				if pct < a.at && !late {
 					continue
 				}
 				doneActs[i] = true
@@ -669,8 +727,13 @@ func Run(plan Plan, watchdog time.Duration) (res *Result) {
 						defer cancel()
 						return cl.AbortBufferedRecords(ctx)
 					})
-				case "purge":
+				case "purge", "purge-w":
 					op("purge", func() error { cl.PurgeTopicsFromClient(TopicB); return nil })
+				case "metaerr-on":
+					onIter = iter
+					op("metaerr-on", func() error { metaErrOn.Store(true); return nil })
+				case "metaerr-off":
+					op("metaerr-off", func() error { metaErrOn.Store(false); return nil })
 				case "move":
 					op("move", func() error {
 						t := TopicA
